@@ -1,4 +1,4 @@
-# five compile-time buckets where a well-formed construct raises a non-SQLAlchemy exception (each block is standalone)
+# five compile-time buckets (3 and 5 share one root cause) where a well-formed construct raises a non-SQLAlchemy exception (each block is standalone)
 import sqlalchemy as sa
 from sqlalchemy.dialects import oracle, postgresql, sqlite
 t1 = sa.Table("t1", sa.MetaData(), sa.Column("id", sa.Integer, primary_key=True), sa.Column("x", sa.Integer))
@@ -11,8 +11,11 @@ def show(name, stmt, dialect):
 # 1/2 multi-table DELETE / UPDATE on a backend without the syntax: builtin NotImplementedError instead of CompileError
 show("1 delete..using on sqlite", sa.delete(t1).where(t1.c.id == t2.c.t1_id), sqlite.dialect())
 show("2 update..from on oracle", sa.update(t1).values(x=t2.c.y).where(t2.c.t1_id == t1.c.id), oracle.dialect())
-# 3 sqlite ON CONFLICT construct handed to the postgresql compiler (same visit name): AttributeError
-show("3 sqlite upsert on postgresql", sqlite.insert(t1).values(x=1).on_conflict_do_nothing(index_elements=["id"]), postgresql.dialect())
+# 3 Oracle < 12: ORM select + LIMIT + FOR UPDATE OF <mapped class>: RecursionError (same root cause as 5)
+from sqlalchemy.orm import declarative_base
+class A(declarative_base()):
+    __tablename__ = "a"; id = sa.Column(sa.Integer, primary_key=True)
+show("3 oracle<12 orm limit + for update of class", sa.select(A).limit(2).with_for_update(of=A), oracle.dialect(enable_offset_fetch=False))
 # 4 Oracle use_ansi=False, join against text().columns().subquery(): bare NotImplementedError from is_derived_from
 tx = sa.text("select 1 as id").columns(sa.column("id", sa.Integer)).subquery("tx")
 show("4 oracle use_ansi=False join to textual subquery", sa.select(t1.c.id).select_from(t1.outerjoin(tx, t1.c.id == tx.c.id)), oracle.dialect(use_ansi=False))
